@@ -14,7 +14,8 @@
 // the code's probe step (1+|x|)*h is 32*(2+|k|) units, so x +- 2h, +-h, +-h/2 .. +-h/32
 // (the smallest steps the retry loops can reach) are integers.  Function / derivative values are numerators over 2^5.
 // Every evaluation is recomputed in exact dyadic arithmetic; an update in which
-// some evaluation was rounded is flagged exact=false and the specification
+// some evaluation was rounded (or whose values do not fit a common 53-bit window
+// with 7 bits of headroom for the sums of the difference formulas) is flagged exact=false and the specification
 // skips the value comparisons for it (counted in the summary).
 #include "tracer.h"
 
@@ -34,6 +35,7 @@ using namespace vt;
 
 static bool g_quiet = true;   // true while the driver itself looks at the objects
 static bool g_exact = true;   // every evaluation since the last Update was exact
+static int g_minE = 1000, g_maxMsb = -1000; // lowest / highest bit position of the values evaluated in this update
 static int g_bits = 12;       // trace unit = 2^-g_bits
 static long g_deleg = 0;      // calls of the wrapped function's own derivative methods
 static long g_inexactUpdates = 0, g_updates = 0, g_queries = 0, g_assertedQueries = 0;
@@ -229,6 +231,11 @@ public:
     if (!g_quiet)
     {
       if (!sameAsDouble(ex, s)) g_exact = false;
+      if (!ex.ovf && ex.m != 0)
+      {
+        g_minE = std::min(g_minE, ex.e);
+        g_maxMsb = std::max(g_maxMsb, ex.e + blen(ex.m));
+      }
       tracer().emit(Obj().kv("e", "Eval").kv("p", enc(x)));
     }
     return s;
@@ -251,15 +258,20 @@ public:
   }
 
   // ---- derivatives of the wrapped function itself (the delegation targets)
+  // a function that provides derivatives: from the moment they are switched on they refer to the current point
   void enableFirstOrderDerivatives(bool yn) override
   {
+    bool was = en1;
     en1 = yn;
+    if (yn && !was) recompute();
     if (!g_quiet) tracer().emit(Obj().kv("e", "Der").kv("k", 1).kv("on", yn));
   }
   bool enableFirstOrderDerivatives() const override { return en1; }
   void enableSecondOrderDerivatives(bool yn) override
   {
+    bool was = en2;
     en2 = yn;
+    if (yn && !was) recompute();
     if (!g_quiet) tracer().emit(Obj().kv("e", "Der").kv("k", 2).kv("on", yn));
   }
   bool enableSecondOrderDerivatives() const override { return en2; }
@@ -433,6 +445,8 @@ struct Scenario
     if (extra) pl.addParameter(bpp::Parameter("nosuch", 1.5));
     tracer().emit(Obj().kv("e", "Update").kv("entry", entry).kv("asg", asg).kv("copy", copyMode).kv("extra", extra));
     g_exact = true;
+    g_minE = 1000;
+    g_maxMsb = -1000;
     g_quiet = false;
     double rv = 0;
     bool haveRv = false;
@@ -448,6 +462,9 @@ struct Scenario
       }
     });
     g_quiet = true;
+    // the difference formulas form sums like -f1+16f2-30f3+16f4-f5 before dividing: they are exact only if all
+    // values of the update fit a common 53-bit window with 7 bits of headroom
+    if (g_maxMsb > -1000 && g_maxMsb - g_minE + 7 > 53) g_exact = false;
     ++g_updates;
     if (!g_exact) ++g_inexactUpdates;
     double wv = w->getValue();
@@ -558,7 +575,7 @@ static void randomScenario(Rng& r, long& sc)
   for (const Term& t : s.terms)
     for (int e : t.e) dv = std::max(dv, e);
   static const int MS[] = {5, 6, 7, 8, 10, 12, 14, 17, 20};
-  int mmax = 50 / dv - 4;
+  int mmax = 32 / dv - 1;
   s.m = MS[r.below(9)];
   if (s.m > mmax && r.chance(3, 4))
   {
